@@ -153,6 +153,7 @@ type simCluster struct {
 	crashImage string
 	asyncCrash uint64
 	fair       map[string]interface{}
+	isolated   map[uint64]bool // fuzz driver only: nodes currently cut off from the others
 	armSeq     int
 
 	rec     *json.Encoder
